@@ -299,3 +299,25 @@ reg('C14', module='c14', level='exploration',
              'thorough': {'twin_comparisons': 20000,
                           'history_calls': 1000000,
                           'requeried_answers': 200000}})
+
+reg('C15', module='c15', level='fault_enumeration',
+    technique=('runtime monitoring with fault injection: twin environments, '
+               'one of which sees an injected failing call (ill-typed '
+               'calls, malformed input, sys.monitoring fail-points raising '
+               'inside walk_* callbacks); probe results compared; '
+               'quiescent-point walk of walker stacks/memos'),
+    rule=('23 kinds of failing call x random formulas x random fail-point '
+          'index (1..12-th callback) x 4-12 probes on overlapping formulas; '
+          'distinct = (kind, target key, index)'),
+    level_text=('for each injected failure the subsequent probe sequence is '
+                'compared with the same sequence in an environment that '
+                'never saw the failure; additionally every long-lived walker '
+                'must have an empty work stack (and one-shot memo) at the '
+                'quiescent point after the failure.'),
+    level_note=('trusts vf/keys.py; fail-points are injected at PY_START of '
+                'walk_* functions, i.e. where an UnsupportedOperatorError '
+                'or type error would originate'),
+    assumptions=['results are compared modulo names of fresh symbols'],
+    require={'quick': {'failures_injected': 2000, 'probes_compared': 10000},
+             'thorough': {'failures_injected': 50000,
+                          'probes_compared': 300000}})
